@@ -233,7 +233,7 @@ Theorem build_truthful o vid rt0 hs content new_id r fnd hs_out :
   exists d0, new_digest (o_alg o) (o_enc o) = Some d0 /\
     m_get n_content_length (r_fields r) = itoa (Z.of_nat (length (raw_bytes (r_block r)))) /\
     m_get n_block_digest (r_fields r) = format (feed d0 (raw_bytes (r_block r))) /\
-    ((bk (r_block r) = BHttpReq \/ bk (r_block r) = BHttpResp) -> (rt0 =? 32) = false ->
+    ((bk (r_block r) = BHttpReq \/ bk (r_block r) = BHttpResp) -> (r_type r =? 32) = false ->
      m_has n_segment_number hs = false ->
      m_get n_payload_digest (r_fields r) = format (feed d0 (bb (r_block r)))).
 Proof.
@@ -259,7 +259,8 @@ Proof.
   assert (Hseg2 : m_has n_segment_number hs2 = m_has n_segment_number hs) by (unfold hs2; rewrite has_set_other; auto).
   destruct (validate_header (o_spec o) (o_unknown o) vid hs2 []) as [[rt hs3] fnd0|e fnd0] eqn:Ev; [|intros HH; discriminate].
   apply validate_header_keeps in Ev; [|exact HC2]. subst hs3.
-  destruct (parse_block o rt0 hs2 content fnd0) as [[[[hs4 blk] bd] pd] fnd1|e fnd1] eqn:Ep; [|intros HH; discriminate].
+  set (rtb := if rt0 =? 0 then rt else rt0).
+  destruct (parse_block o rtb hs2 content fnd0) as [[[[hs4 blk] bd] pd] fnd1|e fnd1] eqn:Ep; [|intros HH; discriminate].
   assert (Hdf : digest_from_field o hs2 n_block_digest = new_digest (o_alg o) (o_enc o) /\
                 digest_from_field o hs2 n_payload_digest = new_digest (o_alg o) (o_enc o)).
   { unfold Record.digest_from_field. rewrite Hbd2, Hpd2. split; reflexivity. }
@@ -277,15 +278,15 @@ Proof.
       rewrite atoi_value_itoa by lia. rewrite Hraw. f_equal.
       unfold wrap64, int64_max in *. rewrite Z.mod_small by lia. lia. }
   destruct Hcl4 as [Hcl4 Hseg4].
-  destruct (validate_digest o rt0 hs4 blk bd pd true fnd1) as [hs5 fnd2|e fnd2] eqn:Evd; [|intros HH; discriminate].
-  intros HH. inversion HH; subst r fnd hs_out. cbn [r_fields r_block].
-  assert (Hpobj : forall p, payload_obj rt0 blk pd = Some p -> d_hash p = []).
+  destruct (validate_digest o rtb hs4 blk bd pd true fnd1) as [hs5 fnd2|e fnd2] eqn:Evd; [|intros HH; discriminate].
+  intros HH. inversion HH; subst r fnd hs_out. cbn [r_fields r_block r_type].
+  assert (Hpobj : forall p, payload_obj rtb blk pd = Some p -> d_hash p = []).
   { intros p Hp. unfold payload_obj in Hp. destruct (bk blk) eqn:Ek; try discriminate.
-    - destruct (rt0 =? 4) eqn:E4; [|discriminate]. rewrite (Hpd eq_refl) in Hp. inversion Hp; subst. exact Hd0.
+    - destruct (rtb =? 4) eqn:E4; [|discriminate]. rewrite (Hpd eq_refl) in Hp. inversion Hp; subst. exact Hd0.
     - rewrite Hpd in Hp. inversion Hp; subst. exact Hd0.
     - rewrite Hpd in Hp. inversion Hp; subst. exact Hd0. }
   assert (Hbdh : d_hash bd = []) by (rewrite Hbd; exact Hd0).
-  destruct (validate_digest_adds o rt0 hs4 blk bd pd fnd1 hs5 fnd2 Hadddig Hcl4 Hbdh Hpobj Evd) as (R1 & R2 & R3).
+  destruct (validate_digest_adds o rtb hs4 blk bd pd fnd1 hs5 fnd2 Hadddig Hcl4 Hbdh Hpobj Evd) as (R1 & R2 & R3).
   exists d0. split; [reflexivity|]. split; [rewrite R1; exact Hcl4|]. split; [rewrite R2, Hbd; reflexivity|].
   intros Hk Hrt Hseg. apply R3; [exact Hrt|rewrite Hseg4; exact Hseg|].
   unfold payload_obj. destruct Hk as [Hk|Hk]; rewrite Hk in *; exact Hpd.
